@@ -88,6 +88,7 @@ CASES = {
         {'fam': 'glob', 'plen': 3, 'pathlen': 3},
         {'fam': 'lookup', 'paras': 2, 'patterns': 2, 'plen': 1, 'pathlen': 1, 'multi_first_only': True, 'seps': 2},
         {'fam': 'lookup3', 'paras': 3, 'patterns': 1, 'plen': 1, 'pathlen': 1},
+        {'fam': 'lookup', 'paras': 2, 'patterns': 1, 'plen': 1, 'pathlen': 3, 'tag': 'longpath'},
         {'fam': 'license'},
         {'fam': 'gate'},
     ],
@@ -125,7 +126,7 @@ class C17(Harness):
                    'lossy reader: every Files paragraph has Copyright and License (it requires them)']
     oracle_leniency = ['a text the gate refuses must be refused by both readers; the error kind is checked for the lossless reader only (the lossy reader reports a string)']
 
-    def cases(self, tier): return [dict(c, name=c['fam'], order=i) for i, c in enumerate(CASES[tier])]
+    def cases(self, tier): return [dict(c, name=c['fam'] + ('-' + c['tag'] if c.get('tag') else ''), order=i) for i, c in enumerate(CASES[tier])]
 
     # -- symbolic side ------------------------------------------------------------------------------------------
     def parse_both(self, e, text):
